@@ -182,6 +182,10 @@ func checkC14(p *Prog, r *Result, tier string) {
 	checkW3W4(p, r, sites)
 	checkW5(p, r, sites)
 	checkLoopVarCapture(p, r, "LV", []string{"cluster/calcium.(*WorkloadResourceAllocatedHandler).Handle", "cluster/calcium.(*CreateLambdaHandler).Handle", "cluster/calcium.(*CreateWorkloadHandler).Handle", "cluster/calcium.(*ProcessingCreatedHandler).Handle"})
+	// W6: a replay handler that fans its repair out to goroutines waits for them BEFORE it cancels the context they work under:
+	// with `defer wg.Wait()` the cancelling defer has to be registered first (defers run in reverse order) — otherwise every
+	// repair is cut off by `context canceled`, the handler still returns nil and the entry is dropped
+	checkDeferOrder(p, r, "W6", "cluster/calcium")
 	// RC: recovery invoked at start-up
 	r.min("RC", 2)
 	if fn := p.Fn("cluster/calcium.(*Calcium).DisasterRecover"); fn != nil {
@@ -710,5 +714,60 @@ func checkW5(p *Prog, r *Result, sites []*walSite) {
 		} else {
 			r.bad("W5", key, p.pos(s.call), why)
 		}
+	}
+}
+
+// checkDeferOrder: in every function of the package that (1) derives a cancellable context, (2) starts goroutines that use it
+// and (3) joins them with a deferred Wait, the deferred cancel is registered before the deferred Wait.
+func checkDeferOrder(p *Prog, r *Result, rule, pkg string) {
+	g := getSCG(p, r)
+	if g == nil {
+		return
+	}
+	n := 0
+	for _, fn := range p.sortedFuncs(pkg) {
+		if fn.Body == nil || relPath(fn.Pkg.PkgPath) != pkg {
+			continue
+		}
+		// deferred Wait and deferred cancel at the top level of the body
+		var waitAt, cancelAt token.Pos
+		var cancelObj, ctxObj types.Object
+		for _, st := range fn.Body.List {
+			switch y := st.(type) {
+			case *ast.AssignStmt:
+				if len(y.Lhs) == 2 && len(y.Rhs) == 1 {
+					if t := fn.typeOf(y.Lhs[1]); t != nil && strings.HasSuffix(t.String(), "context.CancelFunc") {
+						ctxObj, cancelObj = fn.objOf(y.Lhs[0]), fn.objOf(y.Lhs[1])
+					}
+				}
+			case *ast.DeferStmt:
+				if sel, ok := unparen(y.Call.Fun).(*ast.SelectorExpr); ok && sel.Sel.Name == "Wait" {
+					waitAt = y.Pos()
+				}
+				if id, ok := unparen(y.Call.Fun).(*ast.Ident); ok && cancelObj != nil && fn.objOf(id) == cancelObj {
+					cancelAt = y.Pos()
+				}
+			}
+		}
+		if waitAt == token.NoPos || cancelAt == token.NoPos || ctxObj == nil {
+			continue
+		}
+		// some goroutine of the function uses the context
+		used := false
+		for _, l := range fn.Lits {
+			if g.roles[l].kind == "async" && l.usesObj(l.Lit.Body, ctxObj) {
+				used = true
+			}
+		}
+		if !used {
+			continue
+		}
+		n++
+		key := fn.Name + " / the goroutines are waited for before their context is cancelled"
+		r.check(cancelAt < waitAt, rule, key, p.posOf(cancelAt), "defer cancel() is registered before defer wg.Wait(): Wait runs first", "defer cancel() is registered AFTER defer Wait(): on return the context is cancelled first and the goroutines still running under it (lock, store and plugin calls of the repair) fail with `context canceled` — the error is only logged, the handler reports success and the log entry is deleted without the repair having happened")
+	}
+	r.min(rule, 1)
+	if n == 0 {
+		r.undecided(rule, pkg+" / functions joining goroutines with a deferred Wait under a cancellable context", "", "none found")
 	}
 }
